@@ -97,13 +97,13 @@ class Lang:
         self.WS0 = z3.Star(self.T["WS"])
         self.WS1 = self.T["WS"]  # the WS terminal is already one-or-more
 
-    def flat(self, m):
-        """[(terminal, separator-before)] for a match: '0' = WS*, '1' = WS+"""
+    def flat(self, m, when_sep="0"):
+        """[(terminal, separator-before)] for a match: '0' = WS*, '1' = WS+, 'n' = nothing"""
         out = [("_LB", None)]
         for ci, c in enumerate(m):
             for ti, t in enumerate(c):
                 if ti > 0:
-                    out.append((t, "0"))
+                    out.append((t, when_sep if t == "WHEN" else "0"))
                 else:
                     out.append((t, "0" if ci == 0 else "1"))
         out.append(("_RB", "0"))
@@ -503,12 +503,13 @@ def tree_vs_source(text):
     "functions, variable/header/reference names to the documented word forms, strings, regexes, numbers and comments free); the text is parsed by the real parser and transformed by the real LarkTransformer; the "
     "component tree written back in source order must equal the token sequence of the text: kinds, names, qualifiers, operators, "
     "argument order, literal values. One solver-made program per match part (translation validation of the transformer on "
-    "solver-generated programs; the solver step is the generation, the comparison is concrete)",
+    "solver-generated programs; the solver step is the generation, the comparison is concrete). White space: at least one before "
+    "'->' in the main shards; the shard when_sep='n' generates the texts with NO white space before '->' (listed known finding: they do not parse)",
     outside="more than one text per match part; exponent notation in numbers; arity checks",
     encodes=["csvpath/matching/lark_transformer.py:LarkTransformer (all rule and token callbacks)", "csvpath/matching/functions/function_factory.py:FunctionFactory.get_function",
              "csvpath/matching/productions/*.py constructors", "csvpath/matching/lark_parser.py:LarkParser.GRAMMAR"],
-    tiers={"quick": {"timeout": 900, "K": {"N": 7}, "shards": product(part=list(range(16)), of=[16])},
-           "thorough": {"timeout": 3000, "K": {"N": 8}, "shards": product(part=list(range(16)), of=[16])}},
+    tiers={"quick": {"timeout": 900, "K": {"N": 7}, "shards": product(part=list(range(16)), of=[16], when_sep=["1"]) + product(part=[0], of=[1], when_sep=["n"])},
+           "thorough": {"timeout": 3000, "K": {"N": 8}, "shards": product(part=list(range(16)), of=[16], when_sep=["1"]) + product(part=[0], of=[1], when_sep=["n"])}},
 )
 def tree_equals_source(tier, cfg, shard, carve):
     n = cfg["K"]["N"]
@@ -523,7 +524,10 @@ def tree_equals_source(tier, cfg, shard, carve):
     lg.T["REFERENCE"] = regex2z3.rx(r"\$" + word + r"\.(variables|headers)\." + word)
     lg.T["SIGNED_NUMBER"] = regex2z3.rx(r"(\+|\-)?([0-9]+\.[0-9]*|\.[0-9]+|[0-9]+)")  # no exponent notation (stated as outside)
     x = z3.String("x")
-    flats = [lg.flat(m) for m in ms]
+    when_sep = shard.get("when_sep", "1")
+    flats = [lg.flat(m, when_sep=when_sep) for m in ms]
+    if when_sep == "n":
+        flats = [f for f in flats if any(t == "WHEN" for t, _ in f)]
     mine = flats[shard["part"]::shard["of"]]
     q = 0
     zs = 0.0
